@@ -46,7 +46,7 @@ var hCfgKeys = []string{"goos", "goarch", "pkg", "cpu", "note", "commit"}
 var hCfgVals = map[string][]string{
 	"goos":   {"linux", "darwin", "windows", "plan9"},
 	"goarch": {"amd64", "arm64", "386"},
-	"pkg":    {"p/a", "p/b", "p/c"},
+	"pkg":    {"p/a", "p/b", "p/c", "golang.org/x/perf/a/very/long/package/path/that/goes/on/and/on/and/on/impl1", "golang.org/x/perf/a/very/long/package/path/that/goes/on/and/on/and/on/impl2"},
 	"cpu":    {"1", "2", "10", "1k", "1Ki", "2M", "1500", "NaN", "inf", "abc", "zed", "3Gi", "1Zi", "1Yi", "2Z", "5.5", "0.5k", "999999999.5", "1000000000", "9.999999994e-1", "1e0", "1.0000000006", "4", "8", "010", "0100", "007", "08", "012k"},
 	"note":   {"base", "opt", "opt2", "x y", "zz"},
 	"commit": {"c1", "c2", "c3", "c4", "c5", "c6"},
@@ -114,6 +114,9 @@ func hGenResult(T *sim.Tape, universe int, nsub int) *hResult {
 	for i := 0; i < nu; i++ {
 		res.units = append(res.units, hUnits[up[i]])
 	}
+	if T.Intn(20, "empty-unit") == 0 {
+		res.units[T.Intn(nu, "which-empty")] = "" // an API-built value without a unit: its .unit is the missing value
+	}
 	return res
 }
 
@@ -150,6 +153,8 @@ func (h *hResult) toResult() *benchfmt.Result {
 	}
 	return r
 }
+
+var _ = strings.Repeat
 
 // name decomposition of the reference model (generated names are well formed).
 func hNameParts(name string) (base string, parts []string, procs string) {
@@ -947,6 +952,7 @@ func hRun(t *testing.T, r *sim.Run, prop string) {
 		var got []*seen
 		if T.Intn(3, "concurrent-lane") == 0 {
 			coldTail()
+			sim.ResetProcessState() // concurrent callers start with cold package-level caches
 			ntask := 2 + T.Intn(2, "ntasks")
 			r.Bubble(t, 100000, func(s *sim.Sched) {
 				for ti := 0; ti < ntask; ti++ {
@@ -1041,6 +1047,7 @@ func hRun(t *testing.T, r *sim.Run, prop string) {
 		var got []*sorted
 		if T.Intn(3, "concurrent-lane") == 0 {
 			coldTail()
+			sim.ResetProcessState() // concurrent callers start with cold package-level caches
 			ntask := 2 + T.Intn(2, "ntasks")
 			r.Bubble(t, 100000, func(s *sim.Sched) {
 				for ti := 0; ti < ntask; ti++ {
